@@ -56,7 +56,10 @@ func TestC12_LivenessJailing(t *testing.T) {
 	evid.Check(t, 40, 150, func(t *rapid.T) {
 		salt := fmt.Sprintf("c12-%d", rapid.IntRange(0, 1<<30).Draw(t, "salt"))
 		n := rapid.IntRange(4, 7).Draw(t, "nVals")
-		kind := rapid.SampledFrom([]string{"equal", "oneBig", "random"}).Draw(t, "stakeKind")
+		kind := rapid.SampledFrom([]string{"equal", "oneBig", "random", "quarter"}).Draw(t, "stakeKind")
+		// "quarter": validator 0 holds exactly / just below / just above a quarter of the bonded power (the protection
+		// rule is "more than 25 %"), in thousandths of the total
+		quarter := int64(rapid.SampledFrom([]int{249, 250, 251, 255, 259, 260}).Draw(t, "quarterShare"))
 		stakes := make([]int64, n)
 		seeds := make([]string, n)
 		commas := make([]bool, n)
@@ -68,6 +71,14 @@ func TestC12_LivenessJailing(t *testing.T) {
 				stakes[i] = 50
 				if i == 0 {
 					stakes[i] = int64(rapid.IntRange(60, 200).Draw(t, "big"))
+				}
+			case "quarter":
+				rest := 1000 - quarter
+				stakes[i] = rest / int64(n-1)
+				if i == 0 {
+					stakes[i] = quarter
+				} else if i == n-1 {
+					stakes[i] += rest % int64(n-1)
 				}
 			default:
 				stakes[i] = int64(rapid.IntRange(10, 300).Draw(t, "stake"))
@@ -263,6 +274,9 @@ func TestC12_LivenessJailing(t *testing.T) {
 			"ageKeepAlive": func(t *rapid.T) {
 				// fixture: rewrite a keep-alive as if it had been sent earlier (same bytes KeepValidatorAlive writes)
 				x := vals[rapid.IntRange(0, n-1).Draw(t, "val")]
+				if kind == "quarter" && rapid.Bool().Draw(t, "theQuarterHolder") {
+					x = vals[0]
+				}
 				if x.aliveUntil == 0 {
 					t.Skip("no record")
 				}
